@@ -186,9 +186,118 @@ PROPS["C01"] = {
     },
 }
 
+PROPS["C15"] = {
+    "hook": True,
+    "functions": [
+        "barter::engine::state::EngineState::<DefaultGlobalData, DefaultInstrumentMarketData>::update_from_market (engine entry point for market items)",
+        "barter::engine::state::instrument::InstrumentState::update_from_market",
+        "barter::engine::state::instrument::data::DefaultInstrumentMarketData::{process(&MarketEvent), price}",
+        "barter_data::subscription::book::OrderBookL1::volume_weighed_mid_price, barter_data::books::volume_weighted_mid_price",
+        "barter::engine::state::position::{Position::update_pnl_unrealised, calculate_pnl_unrealised, approximate_remaining_exit_fees}",
+        "barter::engine::state::position::PositionManager::update_from_trade (post-fill value)",
+        "barter::engine::state::connectivity::ConnectivityStates::update_from_market_event, InstrumentStates::instrument_index_mut",
+    ],
+    "bounds": {
+        "quick": "literally constructed engine state: 2 exchanges, 1 instrument with an ARBITRARY open position (2-bit quantities, side concrete per harness), "
+                 "arbitrary held market data (top of book with either side possibly missing, last trade, timestamps 0..3 s); one arbitrary priced market "
+                 "event (public trade at an integer price, or a top-of-book update); plus post-fill cells at 2 bits; unwind 26",
+        "thorough": "quick + the same kernel / engine harnesses at 3 bits",
+    },
+    "outside": ["Engine::process wiring around EngineState::update_from_market (clock, audit, algo-order generation)",
+                "market event kinds that never yield a price (candles, liquidations, L2 book events) - the default instrument data ignores them",
+                "28-digit rounding"],
+    "assumptions": ["stub: Decimal::from_f64 defined on small non-negative integer prices", "connector contract: an L1 event's last_update_time equals its exchange time"],
+    "tiers": {
+        "quick": {"filters": ["c15_q_", "c15_twin_"], "jobs": 14, "harness_timeout_s": 1200, "total_timeout_s": 3000, "mem_gb": 8},
+        "thorough": {"filters": ["c15_"], "jobs": 14, "harness_timeout_s": 3000, "total_timeout_s": 9000, "mem_gb": 10},
+    },
+}
+
+PROPS["C05"] = {
+    "hook": False,
+    "functions": [
+        "barter_data::books::OrderBookSide::<Asks>::{asks, upsert}, OrderBookSide::<Bids>::{bids, upsert}, OrderBookSide::upsert_single, OrderBookSide::levels",
+        "barter_data::books::OrderBook::{new, update, snapshot, bids, asks, mid_price, volume_weighed_mid_price}",
+        "barter_data::books::{mid_price, volume_weighted_mid_price}",
+    ],
+    "bounds": {
+        "quick": "one step from an ARBITRARY valid side with a CONCRETE number of levels n in {0,1,2} (prices 0..7, amounts 1..3, strictly ordered) and an "
+                 "one arbitrary upserted level (amount 0 = delete; front/middle/back inserts, replace, delete, delete-absent all "
+                 "reachable), both sides; book-level Update and Snapshot events on a 1+1-level book; unwind 8",
+        "thorough": "quick + n = 3 with 1 update + two-element update lists (first element replaces an existing level so the intermediate length stays concrete; second arbitrary: duplicate price, delete, insert), both sides",
+    },
+    "outside": ["level counts above 3 and update lists above 2 (the step is uniform in n, but only these n are solver-checked)",
+                "sort_unstable_by inside OrderBookSide::{bids,asks}: for more than 20 levels with duplicate prices in ONE update the relative order of the "
+                "duplicates is unspecified (pattern-defeating quicksort) - outside the bounds",
+                "OrderBookL2Manager::run (async, RwLock)"],
+    "assumptions": ["venue contract: a Snapshot event carries distinct prices with non-zero amounts (the constructor sorts but does not de-duplicate)"],
+    "tiers": {
+        "quick": {"filters": ["c05_q_", "c05_twin_"], "jobs": 5, "harness_timeout_s": 1200, "total_timeout_s": 3000, "mem_gb": 12},
+        "thorough": {"filters": ["c05_"], "jobs": 12, "harness_timeout_s": 3000, "total_timeout_s": 9000, "mem_gb": 10},
+    },
+}
+
+PROPS["C09"] = {
+    "hook": False,
+    "functions": [
+        "barter::engine::state::asset::AssetState::update_from_balance (+ TearSheetAssetGenerator::update_from_balance)",
+        "barter::engine::state::instrument::data::DefaultInstrumentMarketData::process(&MarketEvent) - trade and top-of-book arms",
+    ],
+    "bounds": {
+        "quick": "one inductive step from an arbitrary held (timestamp 0..3 s, value) or nothing, with an arbitrary message (timestamp 0..3 s, value): "
+                 "balances 0..7, trade prices 1..7, top-of-book levels with either side possibly missing; unwind 26",
+        "thorough": "same as quick",
+    },
+    "outside": ["the order arm (covered by C01's timestamp-monotonicity assertion in every cell)",
+                "EngineState::update_from_account routing, incl. full account snapshots item by item (engine-level)"],
+    "assumptions": ["connector contract (true for both L1 connectors in the tree): an L1 event's last_update_time equals its exchange time",
+                    "stub: Decimal::from_f64 defined on small non-negative integers"],
+    "tiers": {
+        "quick": {"filters": ["c09_q_", "c09_twin_"], "jobs": 4, "harness_timeout_s": 900, "total_timeout_s": 2400},
+        "thorough": {"filters": ["c09_"], "jobs": 4, "harness_timeout_s": 3000, "total_timeout_s": 9000},
+    },
+}
+
+PROPS["C04"] = {
+    "hook": True,
+    "functions": [
+        "barter_execution::map::ExecutionInstrumentMap::{new, find_asset_name_exchange, find_asset_index, find_instrument_name_exchange, "
+        "find_instrument_index, find_exchange_id, find_exchange_index}",
+        "barter_execution::indexer::AccountEventIndexer::{order_request, asset_balance}",
+    ],
+    "bounds": {
+        "quick": "concrete configuration family: 2 exchanges, global assets [ex0:btc, ex0:usdt, ex1:btc, ex1:usdt, ex1:eth] (shared names, global index != "
+                 "per-exchange position), global instruments [ex0:btcusdt, ex1:xbtusdt, ex1:ethusdt]; per exchange link: symbolic global asset index 0..6, "
+                 "instrument index 0..4 (own / foreign / out of range), symbolic name among own / foreign / unknown, symbolic exchange index; unwind 26",
+        "thorough": "quick + inbound balance on exchange 0",
+    },
+    "outside": ["configurations outside the family (strings cannot be symbolic); generate_execution_instrument_map's filter over IndexedInstruments "
+                "(builder runs over heap Vecs of string-keyed records); ExecutionManager::run (tokio)",
+                "inbound order / trade events (same find_instrument_index lookup as the checked ones)"],
+    "assumptions": ["the per-exchange (global index, name) tables handed to ExecutionInstrumentMap::new are those of the exchange, in global index order"],
+    "tiers": {
+        "quick": {"filters": ["c04_q_", "c04_twin_"], "jobs": 8, "harness_timeout_s": 900, "total_timeout_s": 2400, "mem_gb": 8},
+        "thorough": {"filters": ["c04_"], "jobs": 8, "harness_timeout_s": 3000, "total_timeout_s": 9000, "mem_gb": 8},
+    },
+}
+
 
 # ---- MANIFEST texts -------------------------------------------------------------------------------------
 LEVEL = {
+ "C05": ("One inductive step of the real OrderBookSide::upsert (both sides) from an arbitrary valid side with a concrete level count against an association "
+         "list with set/delete semantics (strict order, no duplicate, no zero amount, every price's amount), plus OrderBook::update / snapshot and the "
+         "derived prices on small books.",
+         "Level count concrete per harness (0..3); exact-rational Decimal model; snapshot events assumed well-formed."),
+ "C09": ("One inductive step with the ghost 'greatest delivered timestamp and a value delivered with it' for balances, last traded price and top of book, "
+         "from an arbitrary held state and an arbitrary message; covers every permutation with repetition of any message set.",
+         "Order arm covered under C01; engine-level routing outside; L1 connector timestamp contract assumed."),
+ "C04": ("Both translation directions of the real ExecutionInstrumentMap and the outbound/inbound translation of AccountEventIndexer, on a concrete "
+         "two-exchange family with shared asset names, for symbolic own / foreign / out-of-range indices and own / foreign / unknown names.",
+         "Needs the container hook; configuration family concrete (strings cannot be symbolic)."),
+ "C15": ("The engine entry point EngineState::update_from_market (and the InstrumentState kernel) executed on a literally constructed engine state with an "
+         "arbitrary open position, arbitrary held market data and an arbitrary priced event, asserting pnl_unrealised == documented estimate at the "
+         "instrument's current price; plus the post-fill value through PositionManager::update_from_trade.",
+         "Needs the container hook; one instrument; Decimal::from_f64 stubbed on small integers. A known finding is recorded for freshly opened positions."),
  "C01": ("One step of the real Orders state machine per (pre-state kind x input kind) cell - 60 cells - with symbolic timestamps, filled quantities and "
          "bystander payload, compared with a reference lifecycle written from the property text, plus monotone exchange timestamps, no invented data and "
          "bystander-unchanged. Induction over cells covers all interleavings, duplicates and stale reports for any number of order ids.",
